@@ -91,12 +91,14 @@ func (t *verifC25Transport) Close(d Disconnect) error {
 	return nil
 }
 
-// payload for data id d: long common prefix so that fossil patches are smaller than the full payload.
+// payload for data id d (family letter + digits): ids of one family share a long block, so fossil patches
+// inside a family are smaller than the payload ("real" deltas) and depend on the base; across families the
+// patch is at least as long as the payload and the server falls back to the full payload.
 func verifC25Data(id string) []byte {
 	if id == "" || id == "-" {
 		return nil
 	}
-	return []byte(`{"pad":"0123456789abcdefghijklmnopqrstuvwxyz0123456789abcdefghijklmnopqrstuvwxyz0123456789","id":"` + id + `"}`)
+	return []byte(`{"pad":"` + strings.Repeat(id[:1]+"0123456789", 12) + `","id":"` + id + `"}`)
 }
 
 func verifC25ID(b []byte) string {
@@ -151,9 +153,10 @@ type verifC25Frame struct {
 }
 
 type verifC25Scn struct {
-	node  *Node
-	conns map[string]*verifC25Conn
-	order []string
+	node   *Node
+	conns  map[string]*verifC25Conn
+	order  []string
+	closed []*verifC25Conn
 }
 
 // payload bytes of a publication as the SDK would see them: on delta channels (JSON) the data is a JSON string.
@@ -366,6 +369,24 @@ func (s *verifC25Scn) op(f []string) (res string) {
 			return "bad-op"
 		}
 		_ = c.closeFn()
+		// the connection is gone: a later `sub` with this name is a new connection
+		time.Sleep(time.Millisecond)
+		synctest.Wait()
+		o := s.drain(c)
+		delete(s.conns, f[1])
+		var order []string
+		for _, n := range s.order {
+			if n != f[1] {
+				order = append(order, n)
+			}
+		}
+		s.order = order
+		s.closed = append(s.closed, c)
+		rest := s.obs()
+		if o != "" {
+			return f[1] + "[" + o + "] " + rest
+		}
+		return rest
 	case "resp":
 		if len(f) < 2 {
 			return "bad-op"
@@ -480,6 +501,9 @@ func verifC25RunScenario(t *testing.T, lines []string) (out []string) {
 		}
 		for _, name := range s.order {
 			_ = s.conns[name].closeFn()
+		}
+		for _, c := range s.closed {
+			_ = c.closeFn()
 		}
 		time.Sleep(5 * time.Second)
 		synctest.Wait()
